@@ -251,15 +251,14 @@ fn units(run: &Run) -> Vec<Unit> {
     }
     // long waits: the same bounded search while every turn wait really spins (relative processing
     // speed: the item in front is slower by that many polls of the turn counter)
-    let spin = if quick { 1 << 21 } else { 1 << 24 };
+    let spin = if quick { 1 << 21 } else { 1 << 22 };
     let mut long = |w: usize, n: usize, bound: usize| u.push(Unit { mode: "long-waits", w, n, bound: Some(bound), part: None, spin, hint: 0 });
     if quick {
         long(2, 2, 1);
     } else {
-        long(2, 2, 2);
+        long(2, 2, 1);
         long(2, 3, 1);
-        long(3, 3, 1);
-        long(4, 4, 0);
+        long(3, 2, 1);
     }
     u
 }
